@@ -72,3 +72,103 @@ def sample_census(job, npaths=80):
                 break
     E.ENG = None
     return c.seen
+
+
+def run_contexts(report, alpha, contexts, max_holes, path_fn, min_holes=0, sym_coords=False, file_tags=False,
+                 census=True, job_kw=None, parallel_from=3):
+    """Explore every context with 0..max_holes(ctx) holes.  path_fn(Lex, tpl) runs
+    one path and returns a record.  Returns {sig: [violation dicts]}."""
+    candidates = {}
+    for ctx in contexts:
+        nmax = max_holes(ctx)
+        prev = 0
+        for n in range(min_holes, nmax + 1):
+            tpl = ctx.template(alpha, n)
+            Lex = toklex.make_lexer_class(tpl, sym_coords=sym_coords, file_tags=file_tags)
+
+            def make_engine(tpl=tpl):
+                eng = E.Engine()
+                tpl.declare(eng)
+                return eng
+
+            def once(tpl=tpl, Lex=Lex):
+                return path_fn(Lex, tpl)
+
+            lvl = split_level(tpl, ctx, n)
+            job = E.Job(f"{ctx.name}/{n}", make_engine, once, split=("input", lvl) if lvl else None, **(job_kw or {}))
+            if census and n == min(2, nmax):
+                report.functions |= sample_census(job)
+            res = E.run_job(job, workers=None if (n >= parallel_from and prev >= 600) else 1)
+            prev = res.paths
+            report.add_run(job.name, res, describe=tpl.describe())
+            for v in res.violations:
+                candidates.setdefault(v["sig"], []).append(v)
+    return candidates
+
+
+# --------------------------------------------------------------------------- AST comparison
+from .proxies import SymStr, SymInt, FileTag  # noqa: E402
+
+
+def _leaf_equal(a, b):
+    if a is b:
+        return True
+    if isinstance(a, SymStr) or isinstance(b, SymStr):
+        if isinstance(a, SymStr) and isinstance(b, SymStr):
+            if a.key == b.key and a.kind == b.kind:
+                return True
+        return a == b  # decides / concretises
+    if isinstance(a, SymInt) or isinstance(b, SymInt):
+        if isinstance(a, SymInt) and isinstance(b, SymInt):
+            return a.e.eq(b.e) or E.cur().prove(a.e == b.e) == "proved"
+        return False
+    return type(a) == type(b) and a == b
+
+
+def ast_diff(a, b, coords=False, path="ast"):
+    """first structural difference between two pycparser ASTs (None if equal).
+    Every slot but coord/__weakref__ is compared; with coords=True coord too."""
+    if a is None or b is None:
+        return None if a is b else f"{path}: {type(a).__name__} vs {type(b).__name__}"
+    if isinstance(a, (list, tuple)):
+        if not isinstance(b, (list, tuple)) or len(a) != len(b):
+            return f"{path}: list length {len(a)} vs {len(b) if isinstance(b, (list, tuple)) else type(b).__name__}"
+        for i, (x, y) in enumerate(zip(a, b)):
+            d = ast_diff(x, y, coords, f"{path}[{i}]")
+            if d:
+                return d
+        return None
+    slots = getattr(type(a), "__slots__", None)
+    if slots is not None and hasattr(a, "children"):
+        if type(a).__name__ != type(b).__name__:
+            return f"{path}: {type(a).__name__} vs {type(b).__name__}"
+        for name in slots:
+            if name == "__weakref__" or (name == "coord" and not coords):
+                continue
+            d = ast_diff(getattr(a, name), getattr(b, name), coords, f"{path}.{name}")
+            if d:
+                return d
+        return None
+    if hasattr(a, "file") and hasattr(a, "line") and hasattr(b, "file"):  # Coord
+        for name in ("file", "line", "column"):
+            if not _leaf_equal(getattr(a, name), getattr(b, name)):
+                return f"{path}.{name}: {getattr(a, name)!s} vs {getattr(b, name)!s}"
+        return None
+    return None if _leaf_equal(a, b) else f"{path}: {a!s} vs {b!s}"
+
+
+def node_ids(node, acc=None):
+    acc = set() if acc is None else acc
+    if node is None:
+        return acc
+    if isinstance(node, (list, tuple)):
+        for x in node:
+            node_ids(x, acc)
+        return acc
+    if hasattr(node, "children") and hasattr(type(node), "__slots__"):
+        acc.add(id(node))
+        for name in type(node).__slots__:
+            if name in ("coord", "__weakref__"):
+                continue
+            node_ids(getattr(node, name), acc)
+    return acc
